@@ -161,7 +161,7 @@ impl QGen {
   }
 
   pub fn query_string(&self) -> BoxedStrategy<Value> {
-    let fields = self.text.clone();
+    let fields = if self.text.is_empty() { vec!["body".to_string()] } else { self.text.clone() };
     (self.query_string_text(self.phrases, true), proptest::option::weighted(0.4, proptest::sample::subsequence(fields.clone(), 1..=fields.len().max(1))), Self::boost())
       .prop_map(|(q, fs, b)| {
         let mut v = json!({"type": "query_string", "query": q});
